@@ -240,7 +240,13 @@ func init() {
 			if ty.HasOptional() {
 				c.NonTrivial()
 			}
-			got := ty.Cty().WithoutOptionalAttributesDeep()
+			orig := ty.Cty()
+			got := orig.WithoutOptionalAttributesDeep()
+			// "changes nothing else" includes the receiver itself: it must still
+			// be the type it was built as
+			if back := spec.FromCty(orig); !back.Equal(ty) || !orig.Equals(ty.Cty()) {
+				return facet.Failf("strip-mutated-receiver", "WithoutOptionalAttributesDeep changed its receiver: built as %s, now %s", ty, back)
+			}
 			gs := spec.FromCty(got)
 			if gs.HasOptional() {
 				return facet.Failf("strip-left", "optional attributes left after stripping %s: %s", ty, gs)
@@ -257,6 +263,42 @@ func init() {
 			}
 			if !ty.HasOptional() && !got.Equals(ty.Cty()) {
 				return facet.Failf("strip-changed", "stripping changed annotation-free %s", ty)
+			}
+			return nil
+		},
+	})
+
+	facet.Register(facet.F[Pair]{
+		Prop: "C07", Name: "ops/read-only", Quick: 30000, Thorough: 300000,
+		Rule: "a pair of related types (clone / one-position mutant / independent); every type-level query and derivation (Equals, TestConformance both ways, HasDynamicTypes, MarshalJSON, GoString, FriendlyName, WithoutOptionalAttributesDeep, element/attribute accessors) is run, after which both types must still be model-equal to the specs they were built from and Equal to a fresh rebuild; non-trivial = depth >= 1 and (optional attributes or dynamic placeholders present)",
+		Gen:  genPair,
+		Check: func(c *facet.Ctx, p Pair) error {
+			classifyPair(c, p)
+			a, b := p.A.Cty(), p.B.Cty()
+			_ = a.Equals(b)
+			_ = a.TestConformance(b)
+			_ = b.TestConformance(a)
+			_ = a.HasDynamicTypes()
+			_, _ = a.MarshalJSON()
+			_, _ = b.MarshalJSON()
+			_ = a.GoString()
+			_ = a.FriendlyName()
+			_ = a.WithoutOptionalAttributesDeep()
+			_ = b.WithoutOptionalAttributesDeep().WithoutOptionalAttributesDeep()
+			if a.IsObjectType() {
+				_ = a.AttributeTypes()
+				_ = a.OptionalAttributes()
+			}
+			for i, pr := range []struct {
+				ty cty.Type
+				sp spec.T
+			}{{a, p.A}, {b, p.B}} {
+				if back := spec.FromCty(pr.ty); !back.Equal(pr.sp) {
+					return facet.Failf("type-mutated", "type %d was built as %s but reads back as %s after read-only queries and derivations", i, pr.sp, back)
+				}
+				if !pr.ty.Equals(pr.sp.Cty()) || !pr.sp.Cty().Equals(pr.ty) {
+					return facet.Failf("type-mutated", "type %d (%s) no longer equals a fresh build of the same spec", i, pr.sp)
+				}
 			}
 			return nil
 		},
